@@ -21,6 +21,7 @@ package session
 import (
 	"fmt"
 	"maps"
+	"slices"
 	"sync"
 
 	cl "github.com/imoore76/ldlm/server/clientlock"
@@ -93,25 +94,22 @@ func (l *sessionManager) RemoveLock(name string, key string, sessionId string) {
 	l.sessionLocksMtx.Lock()
 	defer l.sessionLocksMtx.Unlock()
 
-	locks, ok := l.sessionLocks[sessionId]
-	if !ok {
-		panic(fmt.Sprintf("Client with session id '%s' has no session entry", sessionId))
-	}
-	if locks == nil {
-		panic(fmt.Sprintf("Client with session id '%s' has a nil session entry", sessionId))
-	}
-	if len(locks) == 0 {
-		return
-	}
-
-	newSlice := make([]cl.Lock, 0, len(locks)-1)
-	for _, l := range locks {
-		if l.Name() == name && l.Key() == key {
+	// The lock may be held by a session other than the caller's (unlocked by key from
+	// another session, loaded from the state file, or the session has already ended), so
+	// remove it from whichever session entry holds it.
+	for sid, locks := range l.sessionLocks {
+		if !slices.ContainsFunc(locks, func(c cl.Lock) bool { return c.Name() == name && c.Key() == key }) {
 			continue
 		}
-		newSlice = append(newSlice, l)
+		newSlice := make([]cl.Lock, 0, len(locks)-1)
+		for _, lk := range locks {
+			if lk.Name() == name && lk.Key() == key {
+				continue
+			}
+			newSlice = append(newSlice, lk)
+		}
+		l.sessionLocks[sid] = newSlice
 	}
-	l.sessionLocks[sessionId] = newSlice
 
 	if err := l.Save(); err != nil {
 		panic(err)
